@@ -124,6 +124,8 @@ func (c *Ctx) provD(v ssa.Value, fr *Frame, d int) *PNode {
 		return c.provD(x.X, fr, d+1)
 	case *ssa.ChangeInterface:
 		return c.provD(x.X, fr, d+1)
+	case *ssa.TypeAssert:
+		return c.provD(x.X, fr, d+1)
 	case *ssa.Slice:
 		n := &PNode{Kind: "slice", Name: "slice", V: v, Fr: fr}
 		n.Args = append(n.Args, c.provD(x.X, fr, d+1))
